@@ -123,14 +123,14 @@ func main() {
 	bounds := map[string]any{}
 	budget := 4 * time.Minute
 	if !run.Thorough() {
-		add(two, progs("L", "T", "C", "X"), -1, vsched.Config{P: 2, Preempt: fine, MaxSteps: 5000})
+		add(two, progs("L", "T", "C", "X", "Y"), -1, vsched.Config{P: 2, Preempt: fine, MaxSteps: 5000})
 		add(two, progs("L", "T", "C", "LL", "TT", "CT", "CL", "XL", "Lh"), -1, vsched.Config{P: 1, Preempt: fine, MaxSteps: 5000})
 		add(two, progs("L", "T", "C", "TT", "LL"), 0, vsched.Config{P: 1, Preempt: fine, MaxSteps: 5000})
 		add([]string{"d"}, progs("L", "T", "C"), -1, vsched.Config{P: 1, Preempt: fine, MaxSteps: 5000})
 		add([]string{"e"}, progs("L", "C"), -1, vsched.Config{P: 1, Preempt: fine, MaxSteps: 5000})
 		bounds["tiers"] = "3 distinct lockers (3 providers) {L,C}^3 with at most one C, P<=1; 2 workers {L,T,C,X}^2 P<=2; 9-program alphabet P<=1; Shutdown pseudo thread with {L,T,C,TT,LL}^2 P<=1; 3 workers {L,T,C}^3 P<=1"
 	} else {
-		add(two, progs("L", "T", "C", "X"), -1, vsched.Config{P: 3, Preempt: fine, MaxSteps: 5000})
+		add(two, progs("L", "T", "C", "X", "Y"), -1, vsched.Config{P: 3, Preempt: fine, MaxSteps: 5000})
 		add(two, progs("L", "T", "C", "LL", "TT", "CT", "CL", "XL", "Lh"), -1, vsched.Config{P: 2, Preempt: fine, MaxSteps: 5000})
 		add(two, progs("L", "T", "C", "TT", "LL", "CT"), 0, vsched.Config{P: 2, Preempt: fine, MaxSteps: 5000})
 		add([]string{"d", "e"}, progs("L", "T", "C"), -1, vsched.Config{P: 2, Preempt: fine, MaxSteps: 5000})
